@@ -6,6 +6,7 @@ from harness import core
 from harness.core import coq_str, coq_list
 from harness.gen import ftree as T
 from harness.impl import tree as I
+from harness.props import c01types as TY
 
 IMPORTS = "From Ford Require Import Base.Str Sem.Tree Corr.C01."
 CASE_T = "str * list stmt * (ent + nat) * option ent"
@@ -70,8 +71,10 @@ def check_vars(declared, got, path, problems, findings):
 
 
 def run(chk):
-    chk.build(["theories/Corr/C01.vo", "theories/Props/C01.vo"])
+    chk.build(["theories/Corr/C01.vo", "theories/Props/C01.vo"] + list(TY.BUILD_TARGETS))
     chk.props("theories/Props/C01.v", THEOREMS)
+    chk.props(TY.PROPS_FILE, TY.THEOREMS)
+    TY.run_part(chk)
     rng = chk.rng
     quick = chk.tier == "quick"
     work = tempfile.mkdtemp(prefix="verif_c01_")
@@ -116,6 +119,9 @@ def run(chk):
 
 
 def replay(chk, rep):
+    r = TY.replay_part(chk, rep)
+    if r is not None:
+        return r
     res = I.parse_text(rep["text"])
     print(res[0], res[1] if res[0] != "ok" else T.tree_term(res[1])[:2000])
     print(res[2][-1000:])
@@ -124,12 +130,17 @@ def replay(chk, rep):
 
 def finish(chk):
     return chk.finish(
-        level_note="Coq theorems about the structural parser model (statement kinds -> entity tree); tied to "
-                   "ford.sourceform.FortranSourceFile by differential runs on generated programs",
-        trusted_base=["Coq 8.16.1 kernel (+ vm_compute)", "hand-written model Sem/Tree.v", "harness/gen/ftree.py "
-                      "(renderer: statement kind -> Fortran text in random spellings)", "harness/impl/tree.py"],
+        level_note="Coq theorems about the structural parser model (statement kinds -> entity tree) and about the "
+                   "declaration layer (type-spec spellings, attribute statements, argument order); tied to "
+                   "ford.sourceform by differential runs on generated programs and declarations",
+        trusted_base=["Coq 8.16.1 kernel (+ vm_compute)", "hand-written models Sem/Tree.v, Sem/TypeSpec.v (hand-written "
+                      "recognisers for the type/kind/len regular expressions), Spec Sem/DeclSpec.v", "harness/gen/ftree.py "
+                      "(renderer: statement kind -> Fortran text in random spellings), harness/gen/c01decl.py",
+                      "harness/impl/tree.py, harness/impl/c01types.py"],
         rule="generated abstract programs (modules, submodules, programs, external procedures, block data, types, "
              "interfaces, enums, common, namelists, internal procedures, block/associate constructs) rendered with "
              "random keyword case / END spellings / type-spec spellings; non-trivial = more than 6 statements",
         checker_cmd="make theories/Props/C01.vo && coqc theories/Props/C01.v (Print Assumptions)",
-        assumptions=["the regular-expression cascade (statement classification) is validated end-to-end, not modelled"])
+        assumptions=["the regular-expression cascade (statement classification) is validated end-to-end, not modelled",
+                     "FUNCTION_RE / SUBROUTINE_RE groups are taken from FORD's own regex (tied to the abstract unit by "
+                     "the judge); extra_vartypes, the lower setting and procedure(...) declarations are outside the model"])
